@@ -165,15 +165,24 @@ let run_ttlspec parts =
   | _ -> "spec=ok"
 
 (* ---------- kind: cachehist ---------- *)
-type hop = { hk : char; hat : int; hkey : int; hrcode : int; htc : bool; httls : int64 list }
+(* round 2: op  a.<at ms>.<key>.<age ms>.<remain ms>.<nx>.<ttl_ttl|x>  = MemoryCache.Store called directly at +at with
+   storedTime = now - age and expireTime = now + remain (the promotion of a redis hit; hook StoreAt) *)
+type hop = { hk : char; hat : int; hkey : int; hrcode : int; htc : bool; httls : int64 list;
+             hage : int; hremain : int; hnx : bool }
 
 let parse_ops (s : string) : hop list =
   List.map (fun tok ->
       match String.split_on_char '.' tok with
-      | [k; at; key] -> { hk = k.[0]; hat = int_of_string at; hkey = int_of_string key; hrcode = 0; htc = false; httls = [] }
+      | [k; at; key] -> { hk = k.[0]; hat = int_of_string at; hkey = int_of_string key; hrcode = 0; htc = false; httls = [];
+                          hage = 0; hremain = 0; hnx = false }
       | [k; at; key; rc; tc; ttls] ->
         { hk = k.[0]; hat = int_of_string at; hkey = int_of_string key; hrcode = int_of_string rc; htc = (tc = "1");
-          httls = if ttls = "x" then [] else List.map Int64.of_string (String.split_on_char '_' ttls) }
+          httls = (if ttls = "x" then [] else List.map Int64.of_string (String.split_on_char '_' ttls));
+          hage = 0; hremain = 0; hnx = false }
+      | [k; at; key; age; remain; nx; ttls] ->
+        { hk = k.[0]; hat = int_of_string at; hkey = int_of_string key; hrcode = 0; htc = false;
+          httls = (if ttls = "x" then [] else List.map Int64.of_string (String.split_on_char '_' ttls));
+          hage = int_of_string age; hremain = int_of_string remain; hnx = (nx = "1") }
       | _ -> failwith ("bad op " ^ tok)) (String.split_on_char ',' s)
 
 (* One cp_run of the model on the scheduled history: otter's ticker has phase [phase_ms] (ticks at T0 - 1 s + phase + k s),
@@ -192,6 +201,11 @@ let hist_run (mx : z) (ops : hop list) (phase_ms : int) (collect : int) : string
          incr si;
          let resp = if op.hk = 'n' then None else Some (c08_msg (i + 1) op.hrcode op.htc op.httls) in
          evs := EvStore (t, z_of_int 1000, k, resp, true) :: !evs; what := `Store op.hk :: !what
+       | 'a' ->
+         if (collect lsr !si) land 1 = 1 then begin evs := EvCollect k :: !evs; what := `Skip :: !what end;
+         incr si;
+         let stored = z_ns_of_ms (t0_ms + op.hat - op.hage) and expire = z_ns_of_ms (t0_ms + op.hat + op.hremain) in
+         evs := EvStoreAt (t, stored, expire, k, c08_msg (i + 1) 0 false op.httls, op.hnx) :: !evs; what := `Store 'a' :: !what
        | _ -> evs := EvGet (t, k) :: !evs; what := `Get :: !what)) ops;
   let (_, outs) = cp_run mx (init_state (n_of_int 990)) (List.rev !evs) in
   List.concat (List.map2 (fun w o ->
@@ -286,10 +300,70 @@ let run_routerhist parts =
       match alts with [a] -> a | _ -> "E[" ^ String.concat "|" alts ^ "]") in
   String.concat " " toks
 
+(* ---------- kind: promote (round 2): the two-tier cache model Cache/CacheTier.v ---------- *)
+(* ops: s.<at>.<key>.<ttls>  r.<at>.<key>.<age ms>.<remain ms>.<ttls>  x.<at>.<key>  g.<at>.<key> *)
+type pop = { pk : char; pat : int; pkey : int; pttls : int64 list; page : int; premain : int }
+
+let parse_pttls (s : string) : int64 list =
+  if s = "x" then [] else List.map Int64.of_string (String.split_on_char '_' s)
+
+let parse_pops (s : string) : pop list =
+  List.map (fun tok ->
+      match String.split_on_char '.' tok with
+      | [k; at; key] -> { pk = k.[0]; pat = int_of_string at; pkey = int_of_string key; pttls = []; page = 0; premain = 0 }
+      | [k; at; key; ttls] ->
+        { pk = k.[0]; pat = int_of_string at; pkey = int_of_string key; pttls = parse_pttls ttls; page = 0; premain = 0 }
+      | [k; at; key; age; remain; ttls] ->
+        { pk = k.[0]; pat = int_of_string at; pkey = int_of_string key; pttls = parse_pttls ttls;
+          page = int_of_string age; premain = int_of_string remain }
+      | _ -> failwith ("bad op " ^ tok)) (String.split_on_char ',' s)
+
+(* One run of the two-tier model: otter's ticker has phase [phase_ms]; the history starts [unix_ms] after a whole Unix
+   second (the instants that travel through redis are cut to whole seconds); [prompt]: otter's cleanup collects an
+   expired node of the key before every op / never. *)
+let promote_run (mx : z) (ops : pop list) (phase_ms : int) (unix_ms : int) (prompt : bool) : string list =
+  let t0_ms = 1_000_000 + unix_ms in
+  let clock_at (ms : int) : int = 999 + (ms + 1000 - phase_ms) / 1000 in
+  let st = ref (ct_init (n_of_int 990)) in
+  let do_ev ev = let (st', o) = ct_step mx !st ev in st := st'; o in
+  List.mapi (fun i op ->
+      let t = z_ns_of_ms (t0_ms + op.pat) in
+      let k = n_of_int op.pkey in
+      ignore (do_ev (CtTick (n_of_int (clock_at op.pat))));
+      if prompt then ignore (do_ev (CtCollect k));
+      match op.pk with
+      | 's' -> ignore (do_ev (CtStore (t, z_of_int 1000, k, Some (c08_msg (i + 1) 0 false op.pttls), true))); "s"
+      | 'r' ->
+        let stored = z_ns_of_ms (t0_ms + op.pat - op.page) and expire = z_ns_of_ms (t0_ms + op.pat + op.premain) in
+        ignore (do_ev (CtForeign (t, stored, expire, k, c08_msg (i + 1) 0 false op.pttls, false))); "r"
+      | 'x' -> ignore (do_ev (CtDrop k)); "x"
+      | _ ->
+        (match do_ev (CtGet (t, k)) with
+         | OHit (m, _, _) ->
+           Printf.sprintf "H%d:%s" (int_of_n m.m_hdr.h_id - 1) (String.concat "_" (List.map (fun r -> nstr r.r_ttl) m.m_an))
+         | _ -> "M")) ops
+
+let run_promote parts =
+  let f = fields parts in
+  let mx = init_max_ttl (z_of_int64 (Int64.of_string (fld f "maxttl"))) in
+  let ops = parse_pops (fld f "ops") in
+  let runs = ref [] in
+  for p = 0 to 19 do
+    for u = 0 to 39 do
+      runs := promote_run mx ops (25 + 50 * p) (12 + 25 * u) false :: promote_run mx ops (25 + 50 * p) (12 + 25 * u) true :: !runs
+    done
+  done;
+  let toks = List.init (List.length ops) (fun i ->
+      let alts = List.sort_uniq compare (List.map (fun r -> List.nth r i) !runs) in
+      match alts with [a] -> a | _ -> "E[" ^ String.concat "|" alts ^ "]") in
+  String.concat " " toks
+
 let () =
+  register "promote" run_promote;
   register "routerhist" run_routerhist;
   register "policy" run_policy;
   register "policyspec" run_policyspec;
   register "ttl" run_ttl;
   register "ttlspec" run_ttlspec;
-  register "cachehist" run_cachehist
+  register "cachehist" run_cachehist;
+  register "storeat" run_cachehist
